@@ -1,6 +1,7 @@
 package main
 
 import (
+	"encoding/hex"
 	"fmt"
 	"sync"
 )
@@ -168,7 +169,7 @@ func runC03(ctx *runCtx) {
 
 func runC04(ctx *runCtx) {
 	ctx.rep.Rule = "valid multi-message multi-fragment streams (compressed and not) cut at byte offsets: every offset for small streams, and every frame boundary -3..+14 plus random offsets for larger ones; " +
-		"transport ends with EOF or an error; read buffers 1..32768; ground truth: messages wholly before the cut are delivered, the message containing the cut fails with a prefix. " +
+		"every cut inside the header of a final frame for every length encoding after a message without extended lengths; transport ends with EOF or an error; read buffers 1..32768; ground truth: messages wholly before the cut are delivered, the message containing the cut fails with a prefix. " +
 		"distinct = (role, flate, cut offset, stream length)"
 	if replayRead(ctx) {
 		return
@@ -184,6 +185,33 @@ func runC04(ctx *runCtx) {
 	}
 	for i := 0; i < nBig; i++ {
 		genCutCases(rng, 9000, false, 30, func(c *ReadCase) { cases = append(cases, c) })
+	}
+	// every cut inside the header of a final frame, for every length encoding (7-bit, 16-bit, 64-bit), after a
+	// first message whose frames used no extended length (whatever a header buffer still holds from before must
+	// not be taken for the missing bytes), both roles, both endings
+	for _, client := range []bool{true, false} {
+		for _, n2 := range []int{5, 125, 126, 200, 255, 256, 65535, 65536} {
+			mk := func(f RawFrame) []byte {
+				f.Masked, f.Key = !client, [4]byte{9, 8, 7, byte(n2)}
+				return f.Encode()
+			}
+			m1 := []byte("first one")
+			m2 := randBytes(rng, n2)
+			f1 := mk(RawFrame{Fin: true, Op: 2, Payload: m1})
+			f2 := mk(RawFrame{Fin: true, Op: 1, Payload: m2})
+			hdr := len(f2) - n2
+			for k := 0; k <= hdr+1 && k <= len(f2); k++ {
+				for ti, term := range []string{"eof", "err"} {
+					c := &ReadCase{Desc: fmt.Sprintf("cut %d bytes into the header of a %d-byte final frame", k, n2), Client: client, Term: term,
+						Chunks: [][]int{nil, {1}}[(k+ti)%2], Bufs: []int{4096}, Stream: hex.EncodeToString(append(append([]byte(nil), f1...), f2[:k]...))}
+					c.Exp = Expect{Why: c.Desc, Msgs: []ExpMsg{{Typ: 2, Data: hx(m1)}}, Pongs: []string{}}
+					if k > 0 {
+						c.Exp.InMsg, c.Exp.PartialOf = true, hx(m2)
+					}
+					cases = append(cases, c)
+				}
+			}
+		}
 	}
 	runReadCases(ctx, cases, func(c *ReadCase) string { return "cut" })
 }
